@@ -94,11 +94,18 @@ def check(ctx):
         if (n, c) not in found:
             ctx.violation({"kind": "missing_table", "n": n, "conn": c},
                           "missing_table: no stabilizer table for advertised configuration (%d, %s)" % (n, c))
+    scanned = []
     for path, n, conn in files:
         ctx.count("files")
+        attached = 0
         for idx, msg in judge_file(path, n, conn, ctx):
-            ctx.violation({"kind": "table_entry", "file": os.path.basename(path), "line": idx},
-                          "table_entry: %s line %d: %s" % (os.path.basename(path), idx, msg))
+            case = {"kind": "table_entry", "file": os.path.basename(path), "line": idx}
+            if scanned:
+                # the scan reads the files one after the other in one process: record that history with the case
+                case["preceding"] = [{"kind": "table_file", "file": f} for f in scanned]
+                attached += 1
+            ctx.violation(case, "table_entry: %s line %d: %s" % (os.path.basename(path), idx, msg))
+        scanned.append(os.path.basename(path))
     ctx.exhaustive = True
     ctx.count("evaluations", ctx.counters.get("states", 0))
     ctx.count("distinct_nontrivial", ctx.counters.get("states", 0))
@@ -116,13 +123,6 @@ def replay_entry(body):
     for idx, msg in judge_file(path, n, conn):
         if idx == body["line"]:
             return msg
-    # not failing on its own: the scan reads the files one after the other in one process -- replay it that way
-    for p2, n2, c2 in tables.table_files("stabilizer"):
-        for idx, msg in judge_file(p2, n2, c2):
-            if os.path.basename(p2) == body["file"] and idx == body["line"]:
-                return "[history-dependent: only after the lookups for the table files read before it] " + msg
-        if os.path.basename(p2) == body["file"]:
-            break
     return None
 
 
@@ -131,4 +131,13 @@ def replay_missing(body):
     return None if (body["n"], body["conn"]) in found else "table still missing"
 
 
-REPLAY = {"table_entry": replay_entry, "missing_table": replay_missing}
+def replay_file(body):
+    """Scan one whole table file (used to rebuild the call history of a later entry); verdict ignored."""
+    path = os.path.join(tables.DATA_DIR, body["file"])
+    m = tables._NAME.match(body["file"])
+    n, conn = (int(m.group(2)), m.group(3)) if m else (None, None)
+    msgs = ["line %d: %s" % (i, t) for i, t in judge_file(path, n, conn)]
+    return "; ".join(msgs[:3]) if msgs else None
+
+
+REPLAY = {"table_entry": replay_entry, "missing_table": replay_missing, "table_file": replay_file}
